@@ -78,4 +78,24 @@ SPECS = {
                 'least one round trip completed; distinct = event-log digest',
         'assumptions': _EDIT_ASSUME + ['refusals documented as not implemented are not violations', 'comment round trip asserted only for single-line texts without leading/trailing whitespace'],
     },
+    'C10': {
+        'engine': 'editsim', 'mod': 'sim.engines', 'quick': 16000, 'thorough': 300000, 'level': 'exploration',
+        'rule': 'one evaluation = one seeded run: program + history of 1-4 raw requests: put_src(text, rectangle, reparse) with '
+                'rectangles on/off token and node boundaries and replacement text from a token soup (valid and invalid = fault '
+                'R1), raw node puts (raw=True / raw=auto = fault P2) and reparse(); oracle: raise => (src, dump+positions, '
+                'id(root), registry) unchanged; return => src == requested splice and tree == ast.parse(src) with positions; '
+                'accepted iff the spliced source parses; non-trivial = at least one raw request was accepted; distinct = '
+                'event-log digest',
+        'assumptions': _EDIT_ASSUME + ['violations whose request satisfies a listed input predicate (rectangle touches a statement boundary / result changes the statement skeleton / whole source) are counted under the known findings'],
+    },
+    'C11': {
+        'engine': 'editsim', 'mod': 'sim.engines', 'quick': 16000, 'thorough': 300000, 'level': 'exploration',
+        'rule': 'one evaluation = one seeded run: program + history of 1-8 ops: trivia-only put_src(action=offset) edits at '
+                'gaps between tokens found by tokenize (spaces, newline+indent and comment lines inside brackets, backslash '
+                'continuations outside), called on the innermost node that strictly contains the spot (computed on the pure '
+                'AST), interleaved with ordinary edits; precondition (ast only): new source parses to the same structure; '
+                'oracle: live tree == ast.parse(new source) including every position; non-trivial = at least one offset edit '
+                'was applied; distinct = event-log digest',
+        'assumptions': _EDIT_ASSUME + ['sampled gaps, not enumerated'],
+    },
 }
